@@ -678,7 +678,7 @@ pub fn run(_env: &Env, run: &Run) -> (Stats, Coverage) {
     // all of them at every address residue modulo 8 / 16 (sub-slices of a larger buffer)
     st.merge(run_structural(&sigma, run.tier, |s, st| {
         let chars: Vec<char> = s.chars().collect();
-        if s.len() > 200 {
+        if s.len() > 64 {
             mid_ops(s, &chars, st);
         } else {
             all_ops(s, &chars, st);
